@@ -5,7 +5,7 @@ import "verif/internal/eng"
 func init() {
 	register(&Property{
 		ID: "C01",
-		Explanation: "Decides the structural core of the round trip, not equality of restored bytes and attributes: (nodetype-exhaustive) fs.nodeTypeFromFileInfo yields file, dir, symlink, dev, chardev, fifo and socket (plus irregular/invalid, no type unknown to this check), and both fs.NodeCreateAt (restore) and fs.nodeFillExtendedStat (backup) have their own case for each of the seven and return an error when no case matches (specialised evaluation with every type comparison false); (node-field-flow) every serialised field of data.Node (enumerated from the struct; reasons recorded for ChangeTime, Error, Path, LinkTargetRaw) is stored by the backup side (fs.nodeFromFileInfo and its callees in package fs, package archiver) and read by the restore side (fs.NodeCreateAt, fs.NodeRestoreMetadata and their callees in package fs, package restorer) — a recorded attribute nobody restores, or a restored attribute nobody records, is a violation; (restore-passes) Restorer.RestoreTo writes file content only after the first traversal succeeded and starts the second traversal only after restoreFiles returned nil; restoreNodeMetadataTo is called by the second traversal's visitors only and files are scheduled by the first only, so no content is written after metadata was applied; (content-order, C17) chunk IDs are recorded in read order; (marshal-siblings, C41) names and link targets survive encoding. Not decided: equality of content, modes, times, ownership, xattrs and hard-link grouping after a real round trip on every platform, concurrency settings and pack sizes.",
+		Explanation: "Decides the structural core of the round trip, not equality of restored bytes and attributes: (nodetype-exhaustive) fs.nodeTypeFromFileInfo yields file, dir, symlink, dev, chardev, fifo and socket (plus irregular/invalid, no type unknown to this check), and both fs.NodeCreateAt (restore) and fs.nodeFillExtendedStat (backup) have their own case for each of the seven and return an error when no case matches (specialised evaluation with every type comparison false); (node-field-flow) every serialised field of data.Node (enumerated from the struct; reasons recorded for ChangeTime, Error, Path, LinkTargetRaw) is stored by the backup side (fs.nodeFromFileInfo and its callees in package fs, package archiver) and read by the restore side (fs.NodeCreateAt, fs.NodeRestoreMetadata and their callees in package fs, package restorer) — a recorded attribute nobody restores, or a restored attribute nobody records, is a violation; (restore-passes) Restorer.RestoreTo writes file content only after the first traversal succeeded and starts the second traversal only after restoreFiles returned nil; restoreNodeMetadataTo is called by the second traversal's visitors only and files are scheduled by the first only, so no content is written after metadata was applied; (metadata-order) fs.nodeRestoreMetadata changes the owner before it writes extended attributes and before chmod (a later chown would drop security.capability and clear setuid/setgid), writes extended attributes and timestamps before chmod (a read-only mode would block them), and no step is skipped because an earlier one failed — added after a seeded change that moved lchown behind the xattrs; (content-order, C17) chunk IDs are recorded in read order; (marshal-siblings, C41) names and link targets survive encoding. Not decided: equality of content, modes, times, ownership, xattrs and hard-link grouping after a real round trip on every platform, concurrency settings and pack sizes.",
 		Assumptions: commonAssumptions,
 		Technique:   "static analysis: case coverage of the node-type switches + producer/consumer field coverage over call closures + CFG ordering cuts (go/ssa, go/types)",
 		AllConfigs:  true,
@@ -13,10 +13,13 @@ func init() {
 			ruleNodeTypeExhaustive(c)
 			ruleNodeFieldFlow(c)
 			ruleRestorePasses(c)
+			ruleMetadataOrder(c)
 			ruleContentOrder(c)
 			ruleMarshalSiblings(c)
 		},
 		Controls: []Control{
+			{Name: "mode-set-before-ownership", File: "internal/fs/node.go",
+				Old: "	if err := lchown(path, node, ownershipByName); err != nil {\n		firsterr = errors.WithStack(err)\n	}\n\n	if err := nodeRestoreExtendedAttributes", New: "	if node.Type != data.NodeTypeSymlink {\n		_ = chmod(path, node.Mode)\n	}\n	if err := lchown(path, node, ownershipByName); err != nil {\n		firsterr = errors.WithStack(err)\n	}\n\n	if err := nodeRestoreExtendedAttributes", Rule: "metadata-order"},
 			{Name: "fifo-not-recreated", File: "internal/fs/node.go",
 				Old: "	case data.NodeTypeFifo:\n		err = nodeCreateFifoAt(path)\n", New: "", Rule: "nodetype-exhaustive"},
 			{Name: "unknown-type-silently-accepted-on-restore", File: "internal/fs/node.go",
@@ -76,14 +79,17 @@ func init() {
 	})
 	register(&Property{
 		ID: "C20",
-		Explanation: "Decides the wiring only: (select-wiring) runRestore assigns the exclude filter (the literal ranging over the exclude pattern list) to Restorer.SelectFilter only when exclude patterns exist and the include filter only when include patterns exist, never with patterns of the other kind; in the tree walk visitNode and enterDir run only on selectedForRestore==true and the recursion only on childMayBeSelected==true; (delete-guard) --delete removes an entry only if it is selected, not in the snapshot and below the directory. Not decided: which paths the patterns match (C28).",
+		Explanation: "Decides the wiring only: (select-wiring) runRestore assigns the exclude filter (the literal ranging over the exclude pattern list) to Restorer.SelectFilter only when exclude patterns exist and the include filter only when include patterns exist, never with patterns of the other kind; in the tree walk visitNode and enterDir run only on selectedForRestore==true and the recursion only on childMayBeSelected==true; (delete-guard) --delete removes an entry only if it is selected, not in the snapshot and below the directory; (include-filter-accumulates) the include filter asks every include function about the item, each result is (old value || this function's answer), and the loop over the functions is left early only on the edges where both accumulated answers are already true — otherwise a later function (the case-sensitive one after the case-insensitive one) would never be asked; added after a seeded change that turned that && into ||. Not decided: which paths the patterns match (C28).",
 		Assumptions: commonAssumptions,
-		Technique:   "static analysis: CFG edge cuts + closure-capture resolution (go/ssa)",
+		Technique:   "static analysis: CFG edge cuts + closure-capture resolution + loop-exit edge analysis over the accumulator phis (go/ssa)",
 		Run: func(c *eng.Ctx) {
 			ruleSelectWiring(c)
 			ruleDeleteGuard(c)
+			ruleIncludeLoopExit(c)
 		},
 		Controls: []Control{
+			{Name: "include-loop-stops-at-first-match", File: "cmd/restic/cmd_restore.go",
+				Old: "			if selectedForRestore && childMayBeSelected {\n				break\n			}", New: "			if selectedForRestore {\n				break\n			}", Rule: "include-filter-accumulates"},
 			{Name: "restore-unselected-nodes", File: "internal/restorer/restorer.go",
 				Old: "		if selectedForRestore {\n			err = res.sanitizeError(nodeLocation, visitor.visitNode(node, nodeTarget, nodeLocation))", New: "		if selectedForRestore || childMayBeSelected {\n			err = res.sanitizeError(nodeLocation, visitor.visitNode(node, nodeTarget, nodeLocation))", Rule: "select-wiring"},
 			{Name: "swap-filters", File: "cmd/restic/cmd_restore.go",
